@@ -264,8 +264,10 @@ type batch struct {
 	synced   bool
 }
 
+// children put their scratch directories under the parent's temporary directory, which the parent
+// removes before it exits (vlib.Finish calls os.Exit, deferred clean-up does not run)
 func childEnv() []string {
-	return []string{"GOTRACEBACK=all", "GOMAXPROCS=2"}
+	return []string{"GOTRACEBACK=all", "GOMAXPROCS=2", "TMPDIR=" + tmp}
 }
 
 var (
@@ -755,6 +757,7 @@ func main() {
 				fmt.Sscan(os.Args[i+2], &b)
 				runBatch(batch{a, b, true}, 0)
 				run.Count("cases", run.Get("net.messages_dispatched"))
+				os.RemoveAll(tmp)
 				run.Finish("scripts of a range re-run in one child", "cases", "nontrivial", 1)
 			}
 		case "--libcase":
@@ -811,8 +814,7 @@ func main() {
 	run.Assume(fmt.Sprintf("children run under RLIMIT_AS=%d GiB: a message that makes the node request more in one allocation counts as a crash", addrSpaceCap>>30))
 	run.Assume("time-driven paths (ping every 15 s, header/block timeouts, peer dropping) are not reached: scripts finish within milliseconds")
 	run.Assume("hang oracle: per-script watchdog, a violation only when reproduced 3/3 alone with the same handler on the stack")
-	keys := []string{}
-	_ = keys
+	os.RemoveAll(tmp)
 	run.Finish("each case = one framed message dispatched by the real OneConnection.Run() (or one library parser call) on hostile bytes, followed by panic-banner / early-return / lock / liveness probes; distinct_nontrivial = distinct (command, mutation family, before/after handshake) triples actually dispatched plus distinct (entry point, mutation family) pairs",
 		"cases", "nontrivial", 150)
 }
